@@ -112,7 +112,10 @@ func chanBody(kind, who string, pipeCap int, traffic bool) func(x *harness.X) {
 		rt.BeginExplore()
 		// both sides keep consuming their inbound streams
 		go drain(x, "client", cc, &s.ccStreams, &s.cliConsumerEnded)
-		go drain(x, "server", sc, &s.scStreams, &s.srvConsumerEnded)
+		fromHandler := strings.HasSuffix(who, "-from-handler")
+		if !fromHandler {
+			go drain(x, "server", sc, &s.scStreams, &s.srvConsumerEnded)
+		}
 		if traffic {
 			go func() {
 				if err := sc.SendMessage(ctx, lib.Msg("s-1", "from server")); err != nil {
@@ -153,6 +156,31 @@ func chanBody(kind, who string, pipeCap int, traffic bool) func(x *harness.X) {
 				s.initErr = sc.FailSession(ctx, &lime.Reason{Code: 42, Description: "bye"})
 				s.initRet = true
 				x.Obs("server FailSession returned err=%v", s.initErr != nil)
+			}()
+		case "server-fail-from-handler", "server-finish-from-handler":
+			// the server's only consumer ends the session while handling the first
+			// message (as a handler returning an error makes Server do) and consumes
+			// nothing afterwards; the client keeps streaming meanwhile
+			go func() {
+				for i := 0; i < 3; i++ {
+					if err := cc.SendMessage(ctx, lib.Msg(fmt.Sprint("c-", i), "stream")); err != nil {
+						return
+					}
+				}
+			}()
+			go func() {
+				if _, ok := <-sc.MsgChan(); !ok {
+					return
+				}
+				x.Obs("server consumer got the first message and ends the session")
+				if who == "server-fail-from-handler" {
+					s.initErr = sc.FailSession(ctx, &lime.Reason{Code: 42, Description: "bye"})
+				} else {
+					s.initErr = sc.FinishSession(ctx)
+				}
+				s.initRet = true
+				s.srvConsumerEnded = true
+				x.Obs("server terminating call returned err=%v", s.initErr != nil)
 			}()
 		}
 		// the observing side closes its channel once its streams have ended
@@ -201,9 +229,9 @@ func final(x *harness.X, res *rt.Result) {
 	}
 	var wantC, wantS lime.SessionState
 	switch s.who {
-	case "client-finish", "server-finish":
+	case "client-finish", "server-finish", "server-finish-from-handler":
 		wantC, wantS = lime.SessionStateFinished, lime.SessionStateFinished
-	case "server-fail":
+	case "server-fail", "server-fail-from-handler":
 		wantC, wantS = lime.SessionStateFailed, lime.SessionStateFailed
 	}
 	// initiator: terminal state, connection closed by the terminating call
@@ -253,10 +281,16 @@ func main() {
 	opt := rt.Options{NoExplore: true, Horizon: 200 * time.Second, MaxSteps: 80000, BoundAll: true, NoTimerDeviation: true}
 	var scs []harness.Scenario
 	for _, kind := range []string{"inproc", "tcp"} {
-		for _, who := range []string{"client-finish", "server-finish", "server-fail"} {
+		for _, who := range []string{"client-finish", "server-finish", "server-fail", "server-fail-from-handler", "server-finish-from-handler"} {
 			for _, traffic := range []bool{false, true} {
+				if strings.HasSuffix(who, "-from-handler") && traffic {
+					continue
+				}
 				name := fmt.Sprintf("chan/%s/%s", kind, who)
 				q, t := 2, 3
+				if strings.HasSuffix(who, "-from-handler") {
+					q, t = 1, 2
+				}
 				if traffic {
 					name += "/traffic"
 					q, t = 1, 2
@@ -268,7 +302,7 @@ func main() {
 	harness.Main(harness.Check{
 		Property:  "C13",
 		Level:     "model_checking",
-		Rule:      "initiator {client finish, server finish, server fail} x transport {in-process (queue 0/1), TCP over virtual pipe} x channel buffer {0,1} x {idle, one message in flight each way}; both sides keep draining their streams; the observer closes its channel when its receiver is done; all schedules within the deviation bound (delay bounding); distinct outcome = distinct observation log",
+		Rule:      "initiator {client finish, server finish, server fail, server finish/fail issued by the server's only consumer while the client keeps streaming} x transport {in-process (queue 0/1), TCP over virtual pipe} x channel buffer {0,1} x {idle, one message in flight each way}; both sides keep draining their streams; the observer closes its channel when its receiver is done; all schedules within the deviation bound (delay bounding); distinct outcome = distinct observation log",
 		Assume:    []string{"WebSocket transports not explored under the scheduler", "the serving side answers a finishing request the way Server.handleChannel does (FinishSession when the receiver is done)"},
 		Scenarios: scs,
 	})
